@@ -41,11 +41,14 @@ func (s *session) close() {
 
 // connect starts a fake server, connects a fresh library client and answers
 // its CONNECT with the given CONNACK bytes (nil: standard code 0).
-func connect(connack []byte) (*session, error) {
+func connect(connack []byte) (*session, error) { return connectOpt(connack, false) }
+
+func connectOpt(connack []byte, smallBuffers bool) (*session, error) {
 	fs, err := wire.NewFakeServer()
 	if err != nil {
 		return nil, err
 	}
+	fs.SmallBuffers = smallBuffers
 	s := &session{fs: fs, id: fmt.Sprintf("cl%d-%d", time.Now().UnixNano()%100000, clientSeq.Add(1))}
 	s.cl = &service.Client{BufferSize: 16384, ConnectTimeout: 2}
 	cm := message.NewConnectMessage()
